@@ -276,6 +276,9 @@ type radiusScript struct {
 	// error (server failure); the attempts are kept in failed, not in recs
 	failStop map[string]bool
 	failed   []acctRec
+	// down: the accounting server is unreachable (requests are neither recorded nor answered);
+	// frozen: the client process is dead (crash) - nothing it still tries reaches the server
+	down, frozen bool
 }
 
 var radiusSeq atomic.Int64
@@ -318,6 +321,9 @@ func (rs *radiusScript) handle(ctx context.Context, p *radius.Packet, addr strin
 		rfc2865.Class_Set(resp, []byte("class-"+user))
 		return resp, nil
 	case radius.CodeAccountingRequest:
+		if rs.down || rs.frozen {
+			return nil, fmt.Errorf("scripted RADIUS: accounting server unreachable")
+		}
 		r := acctRec{Typ: int(rfc2866.AcctStatusType_Get(p)), Sess: rfc2866.AcctSessionID_GetString(p), User: rfc2865.UserName_GetString(p),
 			MAC: rfc2865.CallingStationID_GetString(p), Cause: uint32(rfc2866.AcctTerminateCause_Get(p))}
 		if ip := rfc2865.FramedIPAddress_Get(p); ip != nil {
@@ -338,6 +344,12 @@ func (rs *radiusScript) nAttempts() int {
 	rs.mu.Lock()
 	defer rs.mu.Unlock()
 	return len(rs.recs) + len(rs.failed)
+}
+
+func (rs *radiusScript) set(down, frozen bool) {
+	rs.mu.Lock()
+	rs.down, rs.frozen = down, frozen
+	rs.mu.Unlock()
 }
 
 func (rs *radiusScript) records() []acctRec {
